@@ -56,6 +56,16 @@ def run_case(ctx, case):
         if v != ("ok", "yes"):
             rec.violation("piece differs from the original curve on its sub-interval", case, oracle=ser(v), piece=ser(pc))
             return
+    # a second split of the unchanged curve gives the same pieces, even after the first pieces were modified in place
+    first = list(r[1])
+    for pc_obj in first:
+        impl(lambda: pc_obj.degree_increase(1))
+    r_again = impl(lambda: curve.split() if nodes is None else curve.split(list(nodes)))
+    if r_again[0] != "ok" or [curve_state(x) for x in r_again[1]] != pieces:
+        rec.violation("split of the unchanged curve returned different pieces after the first pieces were modified (shared objects)", case,
+                      first=ser(pieces), second=ser([curve_state(x) for x in r_again[1]] if r_again[0] == "ok" else r_again[1]))
+        return
+    r = r_again
     # joining the pieces gives back the original
     r = impl(lambda: join_all(list(r[1])))
     if r[0] != "ok":
